@@ -134,6 +134,9 @@ func runC01(x *mc.X) {
 
 	w := world.New(world.Opt{})
 	defer w.Close()
+	if x.Tier() == "thorough" && reqDir == "" && r.swr == "" { // every second exchange through a second transport over the same store
+		w.Alternate = mc.Pick(x, "transports", []string{"one", "two"}) == "two"
+	}
 	start := time.Now()
 	if r.expires == "0 " {
 		r.expires = "+0"
